@@ -129,6 +129,12 @@ def run(ctx):
     ctx.extra["selftest_conditional_recompute_refuted"] = r.invariant_violated in ("C02_SumIdentity", "C02_Clean")
     if not ctx.extra["selftest_conditional_recompute_refuted"]:
         raise tlc.TLCError("self-test failed: stale totals after sharing were not refuted")
+    # the layout of the written file (tla/PkaFile.tla): every file the writer can compose is accepted, counters faithful,
+    # one-line damage noticed
+    r = tlc.run("MC_PkaFile", "MC_PkaFile.cfg" if ctx.thorough() else "MC_PkaFile_q.cfg", timeout=3000)
+    ctx.add_tlc(r, "layout of the written file: writer vs acceptor, damage noticed")
+    if not r.ok:
+        raise tlc.TLCError("spec-level failure in MC_PkaFile:\n" + r.stdout[-3000:])
     # ---- T -------------------------------------------------------------------------------
     cs = cases(ctx)
     recs, metas, _ = runbank.run_and_record(ctx, cs, file_layout=True)
